@@ -97,4 +97,47 @@ MUTANTS = [
  {"id": "c04-quorum-ignores-veto-in-opinions", "props": ["C04"], "file": "packages/cw3/src/proposal.rs",
   "old": "                    let opinions = self.votes.total() - self.votes.abstain;\n                    self.votes.yes >= votes_needed(opinions, threshold)",
   "new": "                    let opinions = self.votes.total() - self.votes.abstain - self.votes.veto;\n                    self.votes.yes >= votes_needed(opinions, threshold)"},
+ # ---- C07
+ {"id": "c07-whitelist-no-admin-check", "props": ["C07"], "file": "contracts/cw1-whitelist/src/contract.rs",
+  "old": "    if !can_execute(deps.as_ref(), info.sender.as_ref())? {\n        Err(ContractError::Unauthorized {})",
+  "new": "    if !can_execute(deps.as_ref(), info.sender.as_ref())? && msgs.len() != 3 {\n        Err(ContractError::Unauthorized {})"},
+ {"id": "c07-subkeys-other-kinds-pass", "props": ["C07", "C16"], "file": "contracts/cw1-subkeys/src/contract.rs",
+  "old": "                _ => {\n                    return Err(ContractError::MessageTypeRejected {});\n                }",
+  "new": "                CosmosMsg::Gov(_) => {}\n                _ => {\n                    return Err(ContractError::MessageTypeRejected {});\n                }"},
+ {"id": "c07-subkeys-drop-last-message", "props": ["C07"], "file": "contracts/cw1-subkeys/src/contract.rs",
+  "old": "    // Relay messages\n    let res = Response::new()\n        .add_messages(msgs)",
+  "new": "    // Relay messages\n    let mut msgs = msgs;\n    if msgs.len() > 3 { msgs.pop(); }\n    let res = Response::new()\n        .add_messages(msgs)"},
+ {"id": "c07-redelegate-uses-delegate-flag", "props": ["C07"], "file": "contracts/cw1-subkeys/src/contract.rs",
+  "old": "            ensure!(permissions.redelegate, ContractError::ReDelegatePerm {});",
+  "new": "            ensure!(permissions.delegate, ContractError::ReDelegatePerm {});"},
+ # ---- C08
+ {"id": "c08-spend-saturating", "props": ["C08", "C07"], "file": "contracts/cw1-subkeys/src/contract.rs",
+  "old": "                        allowance.balance = allowance.balance.sub(amount.clone())?;",
+  "new": "                        for c in amount.clone() { allowance.balance = allowance.balance.sub_saturating(c)?; }"},
+ {"id": "c08-spend-ignores-expiry", "props": ["C08", "C07"], "file": "contracts/cw1-subkeys/src/contract.rs",
+  "old": "                        ensure!(\n                            !allowance.expires.is_expired(&env.block),\n                            ContractError::NoAllowance {}\n                        );",
+  "new": ""},
+ {"id": "c08-decrease-no-admin-check", "props": ["C08", "C17"], "file": "contracts/cw1-subkeys/src/contract.rs",
+  "old": "    let cfg = ADMIN_LIST.load(deps.storage)?;\n    ensure!(cfg.is_admin(&info.sender), ContractError::Unauthorized {});\n\n    let spender_addr = deps.api.addr_validate(&spender)?;\n    ensure_ne!(\n        info.sender,\n        spender_addr,\n        ContractError::CannotSetOwnAccount {}\n    );\n\n    let allowance =",
+  "new": "    let spender_addr = deps.api.addr_validate(&spender)?;\n    ensure_ne!(\n        info.sender,\n        spender_addr,\n        ContractError::CannotSetOwnAccount {}\n    );\n\n    let allowance ="},
+ {"id": "c08-regrant-keeps-expired-balance", "props": ["C08"], "file": "contracts/cw1-subkeys/src/contract.rs",
+  "old": "        let mut allowance = allow\n            .filter(|allow| !allow.expires.is_expired(&env.block))\n            .unwrap_or_default();\n\n        if let Some(exp) = expires {\n            if exp.is_expired(&env.block) {\n                return Err(ContractError::SettingExpiredAllowance(exp));",
+  "new": "        let mut allowance = allow\n            .unwrap_or_default();\n\n        if let Some(exp) = expires {\n            if exp.is_expired(&env.block) {\n                return Err(ContractError::SettingExpiredAllowance(exp));"},
+ # ---- C16
+ {"id": "c16-can-execute-ignores-expiry", "props": ["C16"], "file": "contracts/cw1-subkeys/src/contract.rs",
+  "old": "                    Ok(!allow.expires.is_expired(&env.block) && allow.balance.sub(amount).is_ok())",
+  "new": "                    Ok(allow.balance.sub(amount).is_ok())"},
+ {"id": "c16-can-execute-staking-always-true", "props": ["C16"], "file": "contracts/cw1-subkeys/src/contract.rs",
+  "old": "                Some(permission) => Ok(check_staking_permissions(&staking_msg, permission).is_ok()),",
+  "new": "                Some(_permission) => Ok(true),"},
+ # ---- C17
+ {"id": "c17-can-modify-ignores-mutable", "props": ["C17"], "file": "contracts/cw1-whitelist/src/state.rs",
+  "old": "        self.mutable && self.is_admin(addr)",
+  "new": "        self.is_admin(addr)"},
+ {"id": "c17-freeze-not-persisted", "props": ["C17"], "file": "contracts/cw1-whitelist/src/contract.rs",
+  "old": "        cfg.mutable = false;\n        ADMIN_LIST.save(deps.storage, &cfg)?;",
+  "new": "        cfg.mutable = false;"},
+ {"id": "c17-set-permissions-no-admin-check", "props": ["C17"], "file": "contracts/cw1-subkeys/src/contract.rs",
+  "old": "    let cfg = ADMIN_LIST.load(deps.storage)?;\n    ensure!(cfg.is_admin(&info.sender), ContractError::Unauthorized {});\n\n    let spender_addr = deps.api.addr_validate(&spender)?;\n    ensure_ne!(\n        info.sender,\n        spender_addr,\n        ContractError::CannotSetOwnAccount {}\n    );\n    PERMISSIONS.save",
+  "new": "    let cfg = ADMIN_LIST.load(deps.storage)?;\n    ensure!(cfg.is_admin(&info.sender) || !cfg.mutable, ContractError::Unauthorized {});\n\n    let spender_addr = deps.api.addr_validate(&spender)?;\n    ensure_ne!(\n        info.sender,\n        spender_addr,\n        ContractError::CannotSetOwnAccount {}\n    );\n    PERMISSIONS.save"},
 ]
